@@ -259,6 +259,8 @@ enum Kind {
     /// p = eval_pattern_expr, W/M/H/P = VPL text through parse + Engine (.where/.emit/.having/.pattern)
     CmpX { path: &'static str, op: BinOp },
     Ev { path: &'static str, e: Expr },
+    /// eval_pattern_expr with the bindings of the env as pattern variables
+    EvP { e: Expr },
     Probe { path: &'static str, e: Expr },
     C10 { e: Expr },
     C10T { e: Expr },
@@ -611,6 +613,58 @@ fn targeted(rng: &mut Rng) -> Vec<Expr> {
     out
 }
 
+fn method(recv: Expr, name: &str, args: Vec<Expr>) -> Expr {
+    Expr::Call { func: bx(Expr::Member { expr: bx(recv), member: name.to_string() }), args: args.into_iter().map(Arg::Positional).collect() }
+}
+
+/// expressions of the `.pattern` lambda language over the variable `events` (array of maps), `nums`, `m`
+fn pat_expr(rng: &mut Rng, depth: u32) -> Expr {
+    let d = depth.saturating_sub(1);
+    let arr = |rng: &mut Rng, d: u32| -> Expr {
+        if d == 0 || rng.chance(1, 2) { return id(*rng.pick(&["events", "nums", "mixed", "nested", "zz"])); }
+        match rng.below(5) {
+            0 => method(pat_expr(rng, d), "filter", vec![Expr::Lambda { params: vec![(*rng.pick(&["e", "x"])).to_string()], body: bx(pat_expr(rng, d)) }]),
+            1 => method(pat_expr(rng, d), "map", vec![Expr::Lambda { params: if rng.chance(1, 3) { vec!["a".into(), "b".into()] } else if rng.chance(1, 8) { vec![] } else { vec!["e".into()] }, body: bx(pat_expr(rng, d)) }]),
+            2 => method(pat_expr(rng, d), "flatten", vec![]),
+            3 => method(pat_expr(rng, d), "sliding_pairs", vec![]),
+            _ => id("nums"),
+        }
+    };
+    if depth == 0 {
+        return match rng.below(8) {
+            0 => id("events"), 1 => id("nums"), 2 => id("e"), 3 => id("x"), 4 => Expr::Int(rng.range(-2, 40)),
+            5 => Expr::Float(rng.range(-6, 60) as f64 / 2.0), 6 => id(*rng.pick(&["a", "b", "m", "mixed"])), _ => Expr::Bool(rng.chance(1, 2)),
+        };
+    }
+    match rng.below(12) {
+        0 | 1 => { let a = arr(rng, d); method(a, *rng.pick(&["len", "count", "first", "last", "sum", "avg", "min", "max", "nosuch"]), vec![]) }
+        2 => { let a = arr(rng, d); call(*rng.pick(&["len", "first", "last", "avg", "variance", "sum", "min", "max", "sqrt"]), vec![a]) }
+        3 | 4 => arr(rng, depth),
+        5 => Expr::Member { expr: bx(pat_expr(rng, d)), member: (*rng.pick(&["price", "qty", "k", "name"])).to_string() },
+        6 | 7 => bin(*rng.pick(&[BinOp::Gt, BinOp::Lt, BinOp::Ge, BinOp::Le, BinOp::Eq, BinOp::NotEq, BinOp::And, BinOp::Or, BinOp::Add]), pat_expr(rng, d), pat_expr(rng, d)),
+        8 => Expr::Lambda { params: vec!["events".into()], body: bx(pat_expr(rng, d)) },
+        9 => Expr::Block { stmts: vec![((*rng.pick(&["t", "e"])).to_string(), None, pat_expr(rng, d), false), ("u".into(), None, pat_expr(rng, d), false)], result: bx(if rng.chance(1, 2) { id("t") } else { pat_expr(rng, d) }) },
+        10 => Expr::Member { expr: bx(method(arr(rng, d), *rng.pick(&["first", "last"]), vec![])), member: (*rng.pick(&["price", "qty"])).to_string() },
+        _ => pat_expr(rng, 0),
+    }
+}
+
+fn pat_env(rng: &mut Rng) -> EnvSpec {
+    let ev = |rng: &mut Rng| -> Value {
+        let mut pairs: Vec<(&str, Value)> = vec![("price", rand_num(rng))];
+        if rng.chance(3, 4) { pairs.push(("qty", Value::Int(rng.range(-3, 50)))); }
+        if rng.chance(1, 2) { pairs.push(("name", Value::Str((*rng.pick(&str_pool())).into()))); }
+        Value::map(mk_map(pairs))
+    };
+    let n = rng.below(5);
+    let events = Value::array((0..n).map(|_| ev(rng)).collect());
+    let k = rng.below(6);
+    let nums = Value::array((0..k).map(|_| match rng.below(6) { 0 => Value::Float(rand_float(rng, true)), 1 => Value::Int(rand_int(rng)), 2 => Value::Float(rng.range(-9, 9) as f64 / 2.0), _ => Value::Int(rng.range(-5, 60)) }).collect());
+    let mixed = Value::array((0..rng.below(5)).map(|_| rand_value(rng, 1)).collect());
+    let nested = Value::array((0..rng.below(4)).map(|_| if rng.chance(2, 3) { Value::array((0..rng.below(4)).map(|_| Value::Int(rng.range(0, 9))).collect()) } else { Value::Int(7) }).collect());
+    EnvSpec { etype: "E".into(), fields: vec![], binds: vec![("events".into(), events), ("nums".into(), nums), ("mixed".into(), mixed), ("nested".into(), nested), ("m".into(), ev(rng))] }
+}
+
 fn gen_c11(rng: &mut Rng, thorough: bool) -> Cases {
     let mut envs = Vec::new();
     let mut cases = Vec::new();
@@ -650,6 +704,14 @@ fn gen_c11(rng: &mut Rng, thorough: bool) -> Cases {
         let items: Vec<Value> = (0..n).map(|_| match rng.below(4) { 0 => Value::Int(rng.range(-50, 50)), 1 => Value::Float(if rng.chance(1, 4) { f64::NAN } else { rng.range(-50, 50) as f64 / 2.0 }), 2 => Value::Str((*rng.pick(&str_pool())).into()), _ => Value::Null }).collect();
         envs.push(EnvSpec { etype: "E".into(), fields: vec![("a".into(), Value::array(items))], binds: vec![] });
         cases.push(Case { env: envs.len() - 1, kind: Kind::Ev { path: "e", e: call("sort", vec![id("a")]) } });
+    }
+    // `.pattern` lambda language through eval_pattern_expr
+    let n_pat = if thorough { 30000 } else { 4000 };
+    for i in 0..n_pat {
+        if i % 8 == 0 { envs.push(pat_env(rng)); }
+        let env = envs.len() - 1;
+        let depth = 1 + rng.below(4) as u32;
+        cases.push(Case { env, kind: Kind::EvP { e: pat_expr(rng, depth) } });
     }
     // random trees over the modelled fragment
     let g = Gen { arith_bias: false, allow_to_float_str: false };
@@ -827,6 +889,10 @@ fn eval_case(ch: &mut Child, cs: &Cases, c: &Case) -> String {
             }
         }
         Kind::Ev { path, e } => fmt_res(&if *path == "f" { eval_f(e, env) } else { eval_e(e, env) }),
+        Kind::EvP { e } => {
+            let vars = mk_bindings(&env.binds);
+            fmt_res(&evaluator::eval_pattern_expr(e, &[], SequenceContext::empty(), &Default::default(), &vars))
+        }
         Kind::Probe { path, e } => {
             if *path == "t" {
                 let src = format!("stream S = E .where(({}) == 1) .emit(v: {})", vpl(e).unwrap(), vpl(e).unwrap());
@@ -972,6 +1038,11 @@ pub fn run(ctx: &mut Ctx, name: &str) {
                 ctx.count(&format!("res:{}", res_class));
                 count_calls(ctx, e);
                 ctx.case(&format!("ev {} {}", path, fmt_expr(e)), r);
+            }
+            Kind::EvP { e } => {
+                ctx.count(&format!("evp:{}", expr_kind(e)));
+                ctx.count(&format!("evp-res:{}", res_class));
+                ctx.case(&format!("evp {}", fmt_expr(e)), r);
             }
             Kind::Probe { path, e } => {
                 ctx.count(&format!("probe:{}:{}", path, expr_kind(e)));
